@@ -143,6 +143,12 @@ def write_pcapng(path, items, *, endian="<", tsresol=6, tsoffset=0, snaplen=0, o
             units = int(sec * per_s)
             body = struct.pack(e + "IIIII", ifid, units >> 32, units & 0xFFFFFFFF, len(frame), len(frame)) + frame
             out += pcapng_block(6, body, e)
+        elif it[0] == "idb":         # a further interface (no packet refers to it) with time parameters of its own
+            _, r_, o_ = it
+            oo = (_opt(9, bytes([r_]), e) if r_ != 6 else b"") + (_opt(14, struct.pack(e + "q", o_), e) if o_ else b"")
+            if oo:
+                oo += struct.pack(e + "HH", 0, 0)
+            out += pcapng_block(1, struct.pack(e + "HHI", 1, 0, snaplen) + oo, e)
         elif it[0] == "spb":        # Simple Packet Block: original length + data, no interface id, no timestamp
             out += pcapng_block(3, struct.pack(e + "I", len(it[1])) + it[1], e)
         elif it[0] == "dsb":
